@@ -299,8 +299,13 @@ def gen_ops(rng, k, sh, kind):
         return out
     if kind == 'ack':
         ns = pick_ns(rng, sh)
+        with_ids = sorted(n for n, l in sh.ids.items() if l)
+        if with_ids and rng.random() < 0.75:
+            ns = rng.choice(with_ids)
         r = rng.random()
-        if r < 0.5 and sh.ids.get(ns):
+        if not sh.ids.get(ns):
+            r = 0.5 + r / 2
+        if r < 0.5:
             pid = rng.choice(sh.ids[ns])
             sh.ids[ns].remove(pid)
             sh.note('ack-correct')
